@@ -67,7 +67,11 @@ type cliCase struct {
 func genCLI(t *rapid.T) *cliCase {
 	c := &cliCase{P: gen.Profile(t, hostOpts), Assigns: genAssigns(t, 4), Cmd: rapid.SampledFrom(commands).Draw(t, "cmd"),
 		Param: rapid.SampledFrom(hostileStrings).Draw(t, "param"), Gran: rapid.SampledFrom([]string{"functions", "filefunctions", "files", "lines", "addresses"}).Draw(t, "gran")}
-	if paramCommands[c.Cmd] && len(c.P.Locations) > 0 && rapid.Bool().Draw(t, "addrparam") {
+	if (c.Cmd == "list" || c.Cmd == "weblist") && rapid.Bool().Draw(t, "farlines") {
+		// one function sampled at two lines that are very far apart, listed by a pattern that matches it
+		farLines(c.P)
+		c.Param = rapid.SampledFrom([]string{".", ".*", ""}).Draw(t, "listparam")
+	} else if paramCommands[c.Cmd] && len(c.P.Locations) > 0 && rapid.Bool().Draw(t, "addrparam") {
 		// list / weblist / disasm / peek also take an address: one of the profile's own, in hex or decimal
 		a := c.P.Locations[rapid.IntRange(0, len(c.P.Locations)-1).Draw(t, "addrloc")].Address
 		c.Param = rapid.SampledFrom([]string{fmt.Sprintf("0x%x", a), fmt.Sprint(a), fmt.Sprintf("0x%x", a), fmt.Sprintf("0x%x", a+1)}).Draw(t, "addrform")
@@ -285,4 +289,25 @@ func checkWeb(c *webCase, o *vk.Obs) []string {
 func TestPropWeb(t *testing.T) {
 	vk.Main(t, vk.Spec[webCase]{ID: "C09", Facet: "web", Quick: 1200, Thorough: 8000, Gen: genWeb, Check: checkWeb, Journal: true, CaseTimeout: 120 * time.Second,
 		Rule: "hostile query strings (every URL parameter x the hostile value pool, repeated and malformed parameters, bad percent escapes) against every web UI endpoint on a hostile profile; oracle: no handler panic, status in {200, 400, 501 (graphviz missing), 3xx}, and a plain /top afterwards returns the pristine page; non-trivial = at least one parameter"})
+}
+
+// farLines gives the first function a file name and two sampled lines that are very far apart.
+func farLines(p *gen.Prof) {
+	if len(p.Functions) == 0 {
+		return
+	}
+	p.Functions[0].Name, p.Functions[0].Filename = "far", "far.go"
+	n := 0
+	for i := range p.Locations {
+		for j := range p.Locations[i].Lines {
+			if p.Locations[i].Lines[j].Fn == 0 {
+				p.Locations[i].Lines[j].Line = []int64{7, 1 << 40, 1 << 50}[n%3]
+				n++
+			}
+		}
+	}
+	if n < 2 && len(p.Locations) >= 2 {
+		p.Locations[0].Lines = []gen.Line{{Fn: 0, Line: 7}}
+		p.Locations[1].Lines = []gen.Line{{Fn: 0, Line: 1 << 40}}
+	}
 }
